@@ -116,6 +116,16 @@ func verifC08Verify(N int) {
 	if !rootOK {
 		b.MerkleRoot[0] ^= 1
 	}
+	// the merkle tree a block carries is not hashed into its id: the sender is free to ship none, the
+	// body's real tree, or that tree with its root slot set to whatever the header says
+	if carried := vrt.Choice("carried-tree", 3); carried > 0 {
+		for _, n := range MakeMerkleTree(txs) {
+			b.MerkleTree = append(b.MerkleTree, append([]byte{}, n...))
+		}
+		if carried == 2 && len(b.MerkleTree) > 0 {
+			b.MerkleTree[len(b.MerkleTree)-1] = append([]byte{}, b.MerkleRoot...)
+		}
+	}
 	realID, _ := MakeBlockID(b)
 	b.Blockid = append([]byte{}, realID...)
 	if !idOK {
